@@ -215,7 +215,8 @@ Confirm(m, shape) ==
 (* "malformed" (undecodable point), "selfComplaint", "wrongMemberId",      *)
 (* "nonMember" are refused outright.                                       *)
 (***************************************************************************)
-CompShapes == {"ok", "malformed", "selfComplaint", "wrongMemberId", "nonMember"}
+\* ("foreign": a message whose first complaint names the sender and a later one names another member as complainant)
+CompShapes == {"ok", "malformed", "selfComplaint", "wrongMemberId", "nonMember", "foreign"}
 Kinds == {"gen", "badKeySym", "badSig"}
 
 CompAcceptable(c, shape, cs) ==
